@@ -62,6 +62,9 @@ pub struct TrkCfg {
     pub constraints: Option<Vec<(usize, f32)>>,
     pub pos_w: f32,
     pub vel_w: f32,
+    /// the constraint table is assembled by this many add_constraints calls
+    #[serde(default)]
+    pub constraint_calls: usize,
     pub visual: Option<VisualCfg>,
 }
 
@@ -178,6 +181,7 @@ struct Obj {
     qcur: f32,
     immortal: bool,
     accel: f32,
+    size_noise: f32,
 }
 
 pub const FEAT_DIM: usize = 6;
@@ -190,7 +194,7 @@ fn gen_cfg(r: &mut Rng, o: &WorldOpts) -> TrkCfg {
         PosMetric::Maha
     };
     let constraints = if o.constraints > 0 && r.chance(1, 3) {
-        let n = r.range(1, 3);
+        let n = r.range(1, 4);
         Some(
             (0..n)
                 .map(|_| (r.range(1, 5) as usize, *r.pick(&[0.1f32, 0.15, 0.2, 0.3, 0.4, 0.6, 1.0, 1.5, 3.0])))
@@ -209,7 +213,7 @@ fn gen_cfg(r: &mut Rng, o: &WorldOpts) -> TrkCfg {
             max_obs,
             q_use: *r.pick(&[0.0f32, 0.3, 0.5]),
             q_collect: *r.pick(&[0.0f32, 0.4, 0.6]),
-            min_area: *r.pick(&[0.0f32, 0.0, 150.0]),
+            min_area: *r.pick(&[0.0f32, 0.0, 150.0, 1000.0, 2500.0]),
             own_use: if o.own_area && r.chance(1, 3) { *r.pick(&[0.3f32, 0.6, 0.9]) } else { 0.0 },
             own_collect: if o.own_area && r.chance(1, 3) { *r.pick(&[0.4f32, 0.7, 0.95]) } else { 0.0 },
         })
@@ -229,8 +233,9 @@ fn gen_cfg(r: &mut Rng, o: &WorldOpts) -> TrkCfg {
         metric,
         min_conf: *r.pick(&[0.05f32, 0.05, 0.3]),
         constraints,
-        pos_w: 1.0 / 20.0,
-        vel_w: 1.0 / 160.0,
+        pos_w: *r.pick(&[0.05f32, 0.05, 0.05, 0.2, 0.5]),
+        vel_w: *r.pick(&[0.00625f32, 0.00625, 0.00625, 0.05]),
+        constraint_calls: r.range(1, 3) as usize,
         visual,
     }
 }
@@ -257,7 +262,8 @@ fn new_obj(r: &mut Rng, serial: u32, scene: u64, o: &WorldOpts, near: Option<(f3
         height: 20.0 + r.f32() * 60.0,
         angle: if o.rotation && r.chance(1, 3) { Some(r.f32() * 3.0 - 1.5) } else { None },
         dangle: if r.chance(1, 2) { 0.0 } else { r.f32() * 0.1 - 0.05 },
-        grow: 1.0 + (r.f32() - 0.5) * 0.04,
+        grow: 1.0 + (r.f32() - 0.5) * if r.chance(1, 3) { 0.12 } else { 0.04 },
+        size_noise: if r.chance(1, 4) { 0.12 } else { 0.0 },
         hidden: 0,
         proto,
         custom: if r.chance(1, 2) { Some(r.below(1000) as i64 - 500) } else { None },
@@ -357,7 +363,7 @@ pub fn gen_tracker_case(seed: u64, o: &WorldOpts) -> TrackerCase {
                 yc: ob.y + jitter(r, 2.0),
                 angle: ob.angle.map(|a| a + jitter(r, 0.02)),
                 aspect: (ob.aspect + jitter(r, 0.02)).max(0.1),
-                height: (ob.height + jitter(r, 1.0)).max(4.0),
+                height: ((ob.height + jitter(r, 1.0)) * (1.0 + jitter(r, 2.0 * ob.size_noise))).max(4.0),
                 conf: *r.pick(&[1.0f32, 1.0, 0.9, 0.6, 0.2, 0.01]),
             };
             let (feature, quality) = if cfg.kind.is_visual() && o.features {
